@@ -22,6 +22,10 @@ def ref_cal(cal, x):
     """exact evaluation. returns (Fraction value, Fraction magnitude of the terms, exact: bool).
     exact=True means any correct floating-point evaluation gives exactly float(value)."""
     if isinstance(x, float) and (x != x or x in (float("inf"), float("-inf"))):
+        # NaN and the infinities do not lie in the closed range of any spline: without extrapolation the calibration
+        # must fail; everything else about non-finite queries is not judged
+        if cal["t"] == "spline" and not cal["extrapolate"]:
+            raise RefCalibrationError(f"{x} is outside the closed range of the spline points")
         raise RefUndefined("non-finite query")
     q = Fraction(x)
     if cal["t"] == "poly":
